@@ -4,6 +4,7 @@ package main
 import (
 	"bufio"
 	"bytes"
+	"errors"
 	"fmt"
 	"io"
 
@@ -83,6 +84,23 @@ func (o oneByte) Read(p []byte) (int, error) {
 		return 0, nil
 	}
 	return o.r.Read(p[:1])
+}
+
+var errLinkDown = errors.New("link down")
+
+// failing hands out its data and then fails with err (never io.EOF).
+type failing struct {
+	data []byte
+	err  error
+}
+
+func (f *failing) Read(p []byte) (int, error) {
+	if len(f.data) == 0 {
+		return 0, f.err
+	}
+	n := copy(p, f.data)
+	f.data = f.data[n:]
+	return n, nil
 }
 
 type chunked struct {
@@ -213,9 +231,11 @@ func run(c *mon.Ctx) {
 			c.Class("short/" + class(s))
 		}
 	})
-	sym := []byte{0x47, 0x47, 0x47, 0x00, 0x10, 0x05, 0x1f, 0xff, 0x30, 0x04, 0x0f, 0x03, 0x20, 0x0c}
+	// (0xb8 is the inverted sync byte of DVB, 0x46 / 0x48 / 0xc7 / 0x07 are one bit away from 0x47: none of them is one)
+	sym := []byte{0x47, 0x47, 0x47, 0x00, 0x10, 0x05, 0x1f, 0xff, 0x30, 0x04, 0x0f, 0x03, 0x20, 0x0c, 0xb8, 0xb8, 0x46, 0x48, 0xc7, 0x07, 0x40}
 	// the search is a function of its reader's content whoever else is searching another stream at that moment
 	c.Floor("concurrent.calls", 20000)
+	c.Floor("random.after_a_search_cut_short_by_a_reader_error", 2000)
 	c.Stream("concurrent-searches", c.N(8, 200), func(i int, r *gen.Rand) {
 		c.Concurrent("packet.Sync on readers of their own", 8, 6000, r, func(q *gen.Rand) string {
 			n := q.Intn(60)
@@ -264,6 +284,18 @@ func run(c *mon.Ctx) {
 			copy(s[at:], []byte{0x47, byte(pid >> 8), byte(pid), byte(0x10 + 0x10*r.Intn(3))})
 		}
 		kind := r.Intn(4)
+		if r.Chance(5) {
+			// the search before this one, on another stream, was cut short by that stream's reader failing
+			// (not by its end) after some bytes had been taken: nothing of it carries over
+			g := make([]byte, 1+r.Intn(40))
+			for k := range g {
+				g[k] = []byte{0x00, 0x47, 0x00, 0x00}[r.Intn(4)] // (adaptation_field_control 00 everywhere: no plausible header)
+			}
+			fr := &failing{data: g, err: errLinkDown}
+			if _, err := packet.Sync(bufio.NewReaderSize(fr, 16)); err != nil && err != io.EOF {
+				c.Count("random.after_a_search_cut_short_by_a_reader_error")
+			}
+		}
 		checkOne(c, s, kind, r)
 		if bytes.IndexByte(s, 0x47) >= 0 {
 			if c.Class(fmt.Sprintf("rand/%s/reader=%d", class(s), kind)) && c.WantSample() && len(s) < 30 && refSync(s) > 2 {
